@@ -8,14 +8,20 @@ variable {P : Type}
 /-- `OwnedTxOut::recover_key(keys)` with `keys = KeyPair { view: v, spend: s }`:
 `let recoverer = KeyRecoverer::new(keys, self.tx_pubkey); recoverer.recover(self.index, self.sub_index)`.
 `self.tx_pubkey` is a `PublicKey` (32 compressed bytes, `Owned.txKey`); `KeyGenerator::from_key` takes its point
-(`PublicKey::point()`, which panics on bytes that do not decode: `none` here — never the case for a key that came out of the
-scan, which only keeps keys validated by `PublicKey::from_slice`). -/
+(`PublicKey::point()`, key.rs:316-320, which panics iff dalek's PERMISSIVE `decompress()` fails). `none` here means "the STRICT
+decoder `ops.dec` (= `PublicKey::from_slice`, canonical encodings only) refuses the bytes": it OVER-approximates the panic — on
+non-canonical but decompressible bytes Rust computes and the model says "panic". The two agree on every key accepted by
+`from_slice`, and an `OwnedTxOut` has private fields and only ever holds such keys (the scan keeps keys validated by
+`PublicKey::from_slice`), so on the outputs of a scan `= some x` is exact. -/
 def Owned.recoverKey (ops : CryptoOps P) (w : Owned) (v s : Nat) : Option Nat :=
   match ops.dec w.txKey with
   | none => none
   | some R => some (Monero.recoverKey ops v s R w.index w.sub.1 w.sub.2)
 
-/-- `KeyRecoverer` as the two-step object it is: `new` computes `checker.rv` once, then any number of `recover` calls -/
+/-- `KeyRecoverer` written as a two-step record: `new` computes `checker.rv` once, then any number of `recover` calls. NOTE: this is a
+PURE record with exactly the fields (v, s, rv) — it cannot express hidden state (a memo, a scratch buffer) of the Rust object, so
+`Recoverer.recover = recoverKey` (`rfl`, Proofs/ScanRecover.lean) says nothing about statelessness of `KeyRecoverer`; that rests on
+the differential op `c09_recover_seq` (one object, many calls, repeated query) and on the purity re-check. -/
 structure Recoverer (P : Type) where
   v : Nat
   s : Nat
